@@ -353,6 +353,51 @@ func c01(c *Ctx) {
 	}
 	// the function patched by name is the one the caller designated (shared with C06.R4)
 	checkExactNameDerivation(p, r, "C01.R4")
+	// ---- R4 (clause) a forwarder does not cross two of its parameters: where a function hands two of its own parameters of
+	// the same type to a callee whose parameters carry those very names, each goes to its namesake
+	for _, f := range p.Funcs {
+		rp := relPkg(f)
+		if !strings.HasPrefix(pkgPathOf(f), Mod) || f.Blocks == nil || (rp != "" && rp != "internal/patch" && rp != "internal/proxy" && rp != "internal/iface") {
+			continue
+		}
+		nInF := 0
+		eachInstr(f, func(i ssa.Instruction) {
+			ci, ok := i.(ssa.CallInstruction)
+			if !ok {
+				return
+			}
+			cal := staticCallee(ci.Common())
+			if cal == nil || !strings.HasPrefix(pkgPathOf(cal), Mod) || cal.Signature.Recv() != nil && len(cal.Params) != len(ci.Common().Args) {
+				return
+			}
+			args := ci.Common().Args
+			if len(args) != len(cal.Params) {
+				return
+			}
+			type pa struct {
+				k    int
+				name string
+			}
+			var own []pa
+			for k, a := range args {
+				if pr, ok := resolveLocal(a).(*ssa.Parameter); ok && pr.Parent() == f && pr.Name() != "_" {
+					own = append(own, pa{k, pr.Name()})
+				}
+			}
+			for _, x := range own {
+				for _, y := range own {
+					if x.k >= y.k || !types.Identical(cal.Params[x.k].Type(), cal.Params[y.k].Type()) {
+						continue
+					}
+					if cal.Params[x.k].Name() == y.name && cal.Params[y.k].Name() == x.name && x.name != y.name {
+						nInF++
+						r.Bad("C01.R4", "parameters "+x.name+"/"+y.name+" forwarded to their namesakes in "+shortName(f)+" #"+itoa2(nInF), p.Pos(posOf(i)),
+							"the caller's `"+x.name+"` is passed as `"+y.name+"` of "+shortName(cal)+" and the other way round: target and replacement (or origin and placeholder) change places, so the wrong function is patched")
+					}
+				}
+			}
+		})
+	}
 	// ---- R6 a freshly built guard is switched on
 	r.Floor("C01.R6", 3)
 	checkGuardActivated(p, r, "C01.R6")
